@@ -79,6 +79,16 @@ def write_rule(check, P):
                 order = sorted([(clear[0][0], "clear"), (send[0][0], "send"), (wait[-1][0], "wait")])
                 check.violation("R1", "write:order", f"write() performs {[x for _, x in order]}; required: clear, send, wait (an acknowledgement arriving between send and a late clear is lost; a wait before send never ends)", d)
                 continue
+            w_ev = wait[-1][1]
+            timed = [x for x in list(w_ev.data.get("args", ())) + list(w_ev.data.get("kwargs", {}).values()) if not (isinstance(x, Const) and x.v is None)]
+            if timed:
+                res = w_ev.data.get("result")
+                rtag = I.tag(res) if res is not None else None
+                consulted = [v for k, v in path.decisions if rtag and rtag in k]
+                if not consulted or consulted[-1] is not True:
+                    check.violation("R1", "write:timed-wait", f"write() waits for the acknowledgement with a time limit ({', '.join(I.tag(x) for x in timed)}) and returns normally "
+                                    "without having seen the event set: a slow statement is reported as delivered, and its late 'ok'/'error' is attributed to the next one", d)
+                    continue
             if any(i > send[0][0] for i, _ in clear):
                 check.violation("R1", "write:clear-after-send", "write() clears the acknowledgement event again after sending", d)
                 continue
